@@ -391,7 +391,9 @@ class SVGShape:
         ]:
             if getattr(target, fill_attr) == "none":
                 # a renderer clamps each opacity to [0, 1] before using it
-                target.opacity *= max(0.0, min(1.0, getattr(target, opacity_attr)))
+                target.opacity = max(0.0, min(1.0, target.opacity)) * max(
+                    0.0, min(1.0, getattr(target, opacity_attr))
+                )
                 setattr(target, opacity_attr, default)
 
         return target
